@@ -222,13 +222,14 @@ Theorem delete_glyph_gids_all_levels b b' : out_mode b = true -> delete_glyph b 
   exists x t, rest b = x :: t /\ map gid (pre b') = map gid (pre b) /\ map gid (rest b') = map gid t.
 Proof. apply delete_glyph_q_all_levels; [exact gid_set_cluster|intro x; reflexivity]. Qed.
 
-(* ---- every finite sequence of pure bookkeeping operations (cluster merges and the four flag calls, any arguments, any
-   mode, any level) keeps, glyph by glyph, what set_cluster and flag-valued or_mask leave alone *)
+(* ---- every finite sequence of pure bookkeeping operations (cluster merges in both buffers, the four flag calls, and the
+   cursor steps next_glyph / next_glyphs; any arguments, any mode, any level) keeps, glyph by glyph, what set_cluster and flag-valued or_mask leave alone *)
 From RB Require Import Model.BufferOps.
 
 Definition bookkeeping (o : bop) : bool :=
   match o with
-  | OMergeClusters _ _ | OUnsafeToBreak _ _ | OUnsafeToConcat _ _ | OUnsafeToBreakOut _ _ | OUnsafeToConcatOut _ _ => true
+  | OMergeClusters _ _ | OMergeOut _ _ | OUnsafeToBreak _ _ | OUnsafeToConcat _ _ | OUnsafeToBreakOut _ _ | OUnsafeToConcatOut _ _
+  | ONextGlyph | ONextGlyphs _ => true
   | _ => false
   end.
 
@@ -242,10 +243,46 @@ Section BookkeepingRuns.
     set_glyph_flags b m s e i f = Ok b' -> map q (pre b' ++ rest b') = map q (pre b ++ rest b).
   Proof. intros Hm. apply (set_glyph_flags_mq Q q m (fun x => q_flag_mask m x Hm)). Qed.
 
+  Lemma ensure_parts b n : pre (snd (ensure b n)) = pre b /\ rest (snd (ensure b n)) = rest b.
+  Proof. unfold ensure. destruct (n <? blen b)%nat; [split; reflexivity|]. destruct (max_len b <? N.of_nat n); split; reflexivity. Qed.
+
+  Lemma merge_out_q b s e b' : merge_out_clusters b s e = Ok b' -> map q (pre b' ++ rest b') = map q (pre b ++ rest b).
+  Proof.
+    unfold merge_out_clusters.
+    destruct (level b =? 2); [intro H; inversion H; subst; reflexivity|].
+    destruct (e - s <? 2)%nat; [intro H; inversion H; subst; reflexivity|].
+    destruct (nth_error (pre b) s) as [first|]; [|discriminate].
+    destruct (nth_error (pre b) (e - 1)) as [last|]; [|discriminate].
+    intro H; inversion H; subst. cbn [pre rest with_pr]. rewrite !map_app.
+    rewrite (map_p_map_range _ q); [|intro x; apply q_set_cluster].
+    f_equal.
+    match goal with |- map q (if ?c then _ else _) = _ => destruct c end; [|reflexivity].
+    rewrite map_app, map_map. rewrite (map_ext _ q); [|intro x; apply q_set_cluster].
+    rewrite <- map_app, firstn_skipn. reflexivity.
+  Qed.
+
   Lemma step_bookkeeping_q b o r b' : bookkeeping o = true -> step b o = Ok (Some (r, b')) ->
     map q (pre b' ++ rest b') = map q (pre b ++ rest b).
   Proof.
     destruct o; cbn [bookkeeping]; try discriminate; intros _; cbn [step].
+    - (* next_glyph *)
+      unfold next_glyph. destruct (rest b) as [|x t] eqn:Hr; [discriminate|].
+      destruct (out_mode b).
+      + unfold make_room_for. destruct (ensure b (out_len b + 1)) as [okk b1] eqn:E.
+        pose proof (ensure_parts b (out_len b + 1)) as [Hp Hrs]. rewrite E in Hp, Hrs. cbn [snd] in Hp, Hrs.
+        destruct okk; intro H; inversion H; subst; cbn [pre rest with_pr].
+        * rewrite <- app_assoc. reflexivity.
+        * rewrite Hp, Hrs, Hr. reflexivity.
+      + intro H; inversion H; subst. cbn [pre rest with_pr]. rewrite <- app_assoc. reflexivity.
+    - (* next_glyphs *)
+      unfold next_glyphs. destruct (length (rest b) <? n)%nat; [discriminate|].
+      destruct (out_mode b).
+      + unfold make_room_for. destruct (ensure b (out_len b + n)) as [okk b1] eqn:E.
+        pose proof (ensure_parts b (out_len b + n)) as [Hp Hrs]. rewrite E in Hp, Hrs. cbn [snd] in Hp, Hrs.
+        destruct okk; intro H; inversion H; subst; cbn [pre rest with_pr].
+        * rewrite <- app_assoc, firstn_skipn. reflexivity.
+        * rewrite Hp, Hrs. reflexivity.
+      + intro H; inversion H; subst. cbn [pre rest with_pr]. rewrite <- app_assoc, firstn_skipn. reflexivity.
     - (* merge_clusters *)
       destruct (e <? s)%nat; [discriminate|]. destruct (blen b <? e)%nat; [discriminate|].
       unfold merge_clusters_full.
@@ -257,6 +294,10 @@ Section BookkeepingRuns.
         intro H; inversion H; subst.
         destruct (merge_clusters_q Q q q_set_cluster _ _ _ _ E) as [[Hp Hr]|[_ Ha]]; [|exact Ha].
         rewrite !map_app, Hp, Hr. reflexivity.
+    - (* merge_out_clusters *)
+      destruct (e <? s)%nat; [discriminate|]. destruct (negb (out_mode b)); [discriminate|].
+      destruct (merge_out_clusters b s e) as [b1|] eqn:E; [|discriminate].
+      intro H; inversion H; subst. exact (merge_out_q _ _ _ _ E).
     - unfold unsafe_to_break. destruct (set_glyph_flags b BREAK_CONCAT s e true false) as [b1|] eqn:E; [|discriminate].
       intro H; inversion H; subst. eapply flags_q; [|exact E]. reflexivity.
     - unfold unsafe_to_concat. destruct (produce_concat b); [|intro H; inversion H; subst; reflexivity].
